@@ -29,24 +29,36 @@ var (
 		return net.HardwareAddr(b).String()
 	}})
 	EndpointTCPPort = gopacket.RegisterEndpointType(4, gopacket.EndpointTypeMetadata{Name: "TCP", Formatter: func(b []byte) string {
-		return strconv.Itoa(int(binary.BigEndian.Uint16(b)))
+		return formatPortEndpoint(b)
 	}})
 	EndpointUDPPort = gopacket.RegisterEndpointType(5, gopacket.EndpointTypeMetadata{Name: "UDP", Formatter: func(b []byte) string {
-		return strconv.Itoa(int(binary.BigEndian.Uint16(b)))
+		return formatPortEndpoint(b)
 	}})
 	EndpointSCTPPort = gopacket.RegisterEndpointType(6, gopacket.EndpointTypeMetadata{Name: "SCTP", Formatter: func(b []byte) string {
-		return strconv.Itoa(int(binary.BigEndian.Uint16(b)))
+		return formatPortEndpoint(b)
 	}})
 	EndpointRUDPPort = gopacket.RegisterEndpointType(7, gopacket.EndpointTypeMetadata{Name: "RUDP", Formatter: func(b []byte) string {
+		if len(b) < 1 {
+			return ""
+		}
 		return strconv.Itoa(int(b[0]))
 	}})
 	EndpointUDPLitePort = gopacket.RegisterEndpointType(8, gopacket.EndpointTypeMetadata{Name: "UDPLite", Formatter: func(b []byte) string {
-		return strconv.Itoa(int(binary.BigEndian.Uint16(b)))
+		return formatPortEndpoint(b)
 	}})
 	EndpointPPP = gopacket.RegisterEndpointType(9, gopacket.EndpointTypeMetadata{Name: "PPP", Formatter: func([]byte) string {
 		return "point"
 	}})
 )
+
+// formatPortEndpoint renders a 2-byte big-endian port endpoint.  An endpoint
+// taken from a layer whose header could not be decoded has no bytes.
+func formatPortEndpoint(b []byte) string {
+	if len(b) < 2 {
+		return ""
+	}
+	return strconv.Itoa(int(binary.BigEndian.Uint16(b)))
+}
 
 // NewIPEndpoint creates a new IP (v4 or v6) endpoint from a net.IP address.
 // It returns gopacket.InvalidEndpoint if the IP address is invalid.
